@@ -548,6 +548,12 @@ func evalAlongPath(pk *packages.Package, env *provEnv, e ast.Expr, p *codePath, 
 		if cn, ok := info.Uses[id].(*types.Const); ok {
 			return cn.Name()
 		}
+		if _, ok := info.Uses[id].(*types.Nil); ok {
+			return "nil"
+		}
+		if id.Name == "true" || id.Name == "false" {
+			return id.Name
+		}
 		obj := info.Uses[id]
 		for i := len(p.Nodes) - 1; i >= 0; i-- {
 			if p.Nodes[i].Pos() > e.Pos() && depth == 0 {
@@ -558,7 +564,7 @@ func evalAlongPath(pk *packages.Package, env *provEnv, e ast.Expr, p *codePath, 
 					return evalAlongPath(pk, env, rhs[0], p, depth+1)
 				}
 				if len(rhs) == 0 {
-					return "zero"
+					return "var:" + id.Name // declared without a value (filled through a pointer)
 				}
 			}
 		}
